@@ -247,6 +247,13 @@ func (p *parser) parseTokendef() *TokenDef {
 				} else {
 					value = intVar
 				}
+				// an alias may follow the number
+				p.next()
+				if p.current.Is(StringKind) {
+					id.Alias = p.current.Value
+				} else {
+					p.backup()
+				}
 
 			} else if p.current.Is(StringKind) { // get alias
 				id.Alias = p.current.Value
